@@ -12,3 +12,12 @@ open Rtsp.ClientSm.C12
 #print axioms runExit_closed
 #print axioms close_idle
 #print axioms close_idempotent
+#print axioms reachable_inv
+#print axioms reachable_waiting_has_timer
+#print axioms wait_failure_returns
+#print axioms every_call_returns
+#print axioms read_error_returns
+#print axioms server_request_returns
+#print axioms close_reaches_closed
+#print axioms close_reports_error
+#print axioms close_then_calls_fail
